@@ -41,14 +41,15 @@ func main() { hx.Main("C08", runC08) }
 // 1. source order
 
 type srcOrder struct {
-	StoreLocked    bool     `json:"store_locked"`
-	DetachPrewrite bool     `json:"detach_prewrite"`
-	FlusherSwap    bool     `json:"flusher_swap"`
-	FlagInWriteAOF bool     `json:"flag_in_writeaof"`
-	Callers        []string `json:"writeaof_callers"`
-	Problems       []string `json:"problems"`
-	Main           string   `json:"main_block_order"`
-	Detach         string   `json:"golive_block_order"`
+	StoreLocked       bool     `json:"store_locked"`
+	DetachPrewrite    bool     `json:"detach_prewrite"`
+	FlusherSwap       bool     `json:"flusher_swap"`
+	FlagInWriteAOF    bool     `json:"flag_in_writeaof"`
+	DetachStoreLocked bool     `json:"golive_store_locked"`
+	Callers           []string `json:"writeaof_callers"`
+	Problems          []string `json:"problems"`
+	Main              string   `json:"main_block_order"`
+	Detach            string   `json:"golive_block_order"`
 }
 
 type ev struct {
@@ -236,10 +237,9 @@ func readSourceOrder(repo string) srcOrder {
 		if detBlk == nil {
 			bad("netServe: goingLive block writing client.out not found")
 		} else {
-			var sl bool
-			so.DetachPrewrite, sl, so.Detach = classify(detBlk, "netServe goingLive block", false)
-			if so.DetachPrewrite && !sl {
-				bad("netServe goingLive block clears the flag after the unlock")
+			so.DetachPrewrite, so.DetachStoreLocked, so.Detach = classify(detBlk, "netServe goingLive block", false)
+			if !so.DetachPrewrite {
+				so.DetachStoreLocked = true // no pre-write there at all: the other variant field says so
 			}
 		}
 	}
@@ -265,6 +265,46 @@ func readSourceOrder(repo string) srcOrder {
 		return p
 	}
 	if w := fn(aofGo, "writeAOF"); w != nil {
+		// the block `if s.aof != nil { flag; append }` must be a top-level statement of writeAOF, reached by every
+		// updating command whatever else is going on (AOFSHRINK's shrinklog, hooks, live fences), and the only
+		// return before it is the `!d.updated` one
+		top := false
+		apPos := firstAssign(w, "s.aofbuf")
+		for _, stmt := range w.Body.List {
+			if apPos != 0 && stmt.Pos() > apPos {
+				break
+			}
+			is, ok := stmt.(*ast.IfStmt)
+			if ok && types.ExprString(is.Cond) == "s.aof != nil" && is.Init == nil {
+				has := false
+				ast.Inspect(is.Body, func(x ast.Node) bool {
+					if a, ok := x.(*ast.AssignStmt); ok && len(a.Lhs) == 1 && types.ExprString(a.Lhs[0]) == "s.aofbuf" {
+						has = true
+					}
+					return true
+				})
+				if has {
+					top = true
+				}
+				break
+			}
+			nret := 0
+			ast.Inspect(stmt, func(x ast.Node) bool {
+				if _, ok := x.(*ast.ReturnStmt); ok {
+					nret++
+				}
+				return true
+			})
+			if is, ok := stmt.(*ast.IfStmt); ok && types.ExprString(is.Cond) == "d != nil && !d.updated" {
+				nret = 0
+			}
+			if nret > 0 {
+				bad("writeAOF can return before the append to s.aofbuf (statement at line %d)", fset.Position(stmt.Pos()).Line)
+			}
+		}
+		if !top {
+			bad("writeAOF: the append to s.aofbuf is not an unconditional `if s.aof != nil { ... }` statement of the function body (the model appends every updating command, also while an AOFSHRINK is running)")
+		}
 		st, ap := firstCall(w, "s.aofdirty.Store"), firstAssign(w, "s.aofbuf")
 		switch {
 		case ap == 0:
@@ -520,10 +560,10 @@ func parseMState(w string) mstate {
 		File: parseInts(f[4]), Acked: parseInts(f[5]), OK: f[6] == "1"}
 }
 
-type variant struct{ storeLocked, detachPrewrite, flusherSwap, flagInWriteAOF bool }
+type variant struct{ storeLocked, detachPrewrite, flusherSwap, flagInWriteAOF, detachStoreLocked bool }
 
 func modelTrace(drv *model.Driver, v variant, progs []prog, sched []int) []mstate {
-	toks := []string{"trace", model.B(v.storeLocked), model.B(v.detachPrewrite), model.B(v.flusherSwap), model.B(v.flagInWriteAOF), strconv.Itoa(len(progs))}
+	toks := []string{"trace", model.B(v.storeLocked), model.B(v.detachPrewrite), model.B(v.flusherSwap), model.B(v.flagInWriteAOF), model.B(v.detachStoreLocked), strconv.Itoa(len(progs))}
 	for _, p := range progs {
 		toks = append(toks, p.token())
 	}
@@ -1149,6 +1189,10 @@ func corpus() []scenario {
 		{Name: "EVAL ... tile38.call('set') then kill -9 at its acknowledgement", Progs: []prog{conn(via("eval", false, 1))}, Sched: rep(0, 12), KillAtAck: 1},
 		{Name: "EVALNA ... tile38.call('set') then kill -9 at its acknowledgement", Progs: []prog{conn(via("evalna", false, 1))}, Sched: rep(0, 12), KillAtAck: 1},
 		{Name: "EVAL ... tile38.call('del') then kill -9 at its acknowledgement", Progs: []prog{conn(via("eval", true, 1))}, Sched: rep(0, 12), KillAtAck: 1},
+		{Name: "[SET][SUBSCRIBE] in one packet on A; C writes between A's flush and A's flag clear", Progs: []prog{conn(live(1)), conn(wr(2))},
+			Sched: cat(rep(0, 7), rep(1, 4), rep(0, 1), rep(1, 2), completion([]prog{conn(live(1)), conn(wr(2))}))},
+		{Name: "[SET][SUBSCRIBE] in one packet on A; C writes between A's flush and A's flag clear; kill -9 at C's acknowledgement", Progs: []prog{conn(live(1)), conn(wr(2))},
+			Sched: cat(rep(0, 7), rep(1, 4), rep(0, 1), rep(1, 9)), KillAtAck: 1},
 		{Name: "a script write and a plain write on two connections", Progs: []prog{conn(via("eval", false, 1)), conn(wr(2))},
 			Sched: cat(rep(0, 5), rep(1, 4), rep(0, 6), rep(1, 8))},
 	}
@@ -1236,6 +1280,21 @@ func windowScenario(rng *rand.Rand) scenario {
 	return scenario{Name: "window", Progs: progs, Sched: sched}
 }
 
+// variations around the goingLive copy of the pre-write: A = [writes][SUBSCRIBE] in one packet, a second
+// writer C runs somewhere inside A's pre-write
+func liveWindowScenario(rng *rand.Rand) scenario {
+	progs := []prog{conn(live(1)), conn(wr(2))}
+	if rng.Intn(3) == 0 {
+		progs[1] = conn(wr(2), wr(3))
+	}
+	a1 := 5 + rng.Intn(5)
+	c1 := 3 + rng.Intn(3)
+	a2 := 1 + rng.Intn(3)
+	c2 := 1 + rng.Intn(3)
+	sched := cat(rep(0, a1), rep(1, c1), rep(0, a2), rep(1, c2), completion(progs))
+	return scenario{Name: "golive-window", Progs: progs, Sched: sched}
+}
+
 // the flusher's round starts while a connection is somewhere between its write and its reply
 func flusherWindowScenario(rng *rand.Rand, round int) scenario {
 	progs := []prog{conn(wr(1)), {Flusher: true}, conn(wr(2))}
@@ -1282,6 +1341,191 @@ func enumerate(drv *model.Driver, v variant, progs []prog, visit func(sched []in
 }
 
 // ---------------------------------------------------------------------------------------------
+// writes acknowledged while an AOFSHRINK is in progress (parked at one of its gates): same ack-time oracle.
+// No schedule points of the connections are used here: it is the plain server with VERIF_SHRINK_SOCK.
+
+type shrinkCase struct {
+	Name string `json:"name"`
+	Gate string `json:"rewrite_parked_at"`
+	Kill bool   `json:"kill9_after_the_writes"`
+	Seed int64  `json:"seed"`
+}
+
+func (e *env) shrinkWindow(sc shrinkCase) {
+	e.stopServer()
+	e.nsrv++
+	r := e.r
+	fail := func(kind, sig, what string, impl, mod interface{}) {
+		e.nfail++
+		r.Fail(hx.Failure{Kind: kind, Signature: sig, What: what, Case: sc, Impl: impl, Model: mod})
+	}
+	dir := filepath.Join(e.cfg.Work, fmt.Sprintf("shrink%d", e.nsrv))
+	os.MkdirAll(dir, 0o755)
+	sock := filepath.Join(dir, "shrink.sock")
+	os.Setenv("VERIF_SHRINK_SOCK", sock)
+	s, err := srv.Start(dir)
+	os.Unsetenv("VERIF_SHRINK_SOCK")
+	if err != nil {
+		fail("correspondence", "server-start", err.Error(), nil, nil)
+		return
+	}
+	defer func() {
+		if s != nil {
+			s.Kill()
+		}
+	}()
+	cc, err := net.Dial("unix", sock)
+	if err != nil {
+		fail("correspondence", "control-socket", "shrink control socket: "+err.Error(), nil, nil)
+		return
+	}
+	defer cc.Close()
+	ctl := &ctl{c: cc, r: bufio.NewReader(cc)}
+	rng := rand.New(rand.NewSource(sc.Seed))
+	w := s.MustDial()
+	defer w.Close()
+	w.Timeout = 10 * time.Second
+	// a data set of two collections, more than one batch of ids each
+	for i := 0; i < 40; i++ {
+		w.Do("SET", "ca", fmt.Sprintf("o%02d", i), "POINT", "1", strconv.Itoa(i))
+		w.Do("SET", "cb", fmt.Sprintf("o%02d", i), "POINT", "2", strconv.Itoa(i))
+	}
+	// nine more (small) collections: 11 > maxkeys, so the rewrite loads its key list in two batches
+	for i := 0; i < 9; i++ {
+		w.Do("SET", fmt.Sprintf("k%02d", i), "o", "POINT", "7", strconv.Itoa(i))
+	}
+	if rep := ctl.ask("arm %s", sc.Gate); rep != "ok" {
+		fail("correspondence", "control-socket", "arm: "+rep, nil, nil)
+		return
+	}
+	a := s.MustDial()
+	defer a.Close()
+	if v, err := a.Do("AOFSHRINK"); err != nil || v.IsErr() {
+		fail("correspondence", "setup", fmt.Sprintf("AOFSHRINK: %v %v", v.String(), err), nil, nil)
+		return
+	}
+	// let it run to the n-th arrival at the gate
+	skip := 0
+	switch sc.Gate {
+	case "ids": // two batches per large collection
+		skip = rng.Intn(3)
+	case "keys": // two batches of collection names
+		skip = rng.Intn(2)
+	}
+	ev := ctl.ask("wait 8000")
+	for i := 0; i < skip && strings.HasPrefix(ev, sc.Gate); i++ {
+		ev = ctl.ask("step 8000")
+	}
+	if !strings.HasPrefix(ev, sc.Gate) {
+		fail("correspondence", "control-socket", fmt.Sprintf("the rewrite did not park at gate %s: %q", sc.Gate, ev), ev, nil)
+		return
+	}
+	// writes while the rewrite is parked (s.shrinking = true): each acknowledged command must be in the live file
+	type wr struct {
+		args   []string
+		id     string
+		gone   bool // the object must not exist afterwards
+		needle []byte
+	}
+	var ws []wr
+	for i := 0; i < 6; i++ {
+		id := fmt.Sprintf("%sw%d", e.nonce, e.nsrv*100+i)
+		switch rng.Intn(5) {
+		case 0:
+			ex := fmt.Sprintf("o%02d", rng.Intn(40))
+			already := false
+			for _, q := range ws {
+				if q.id == "ca/"+ex {
+					already = true
+				}
+			}
+			if already {
+				continue
+			}
+			ws = append(ws, wr{args: []string{"DEL", "ca", ex}, id: "ca/" + ex, gone: true, needle: srv.Encode("DEL", "ca", ex)})
+		case 1:
+			ws = append(ws, wr{args: []string{"EVAL", "return tile38.call('set', KEYS[1], ARGV[1], 'point', 3, 3)", "1", "cb", id}, id: "cb/" + id, needle: []byte(id)})
+		case 2:
+			ex := fmt.Sprintf("o%02d", rng.Intn(40))
+			ws = append(ws, wr{args: []string{"SET", "cb", ex, "POINT", "9", strconv.Itoa(100 + i)}, id: "cb/" + ex, needle: srv.Encode("SET", "cb", ex, "POINT", "9", strconv.Itoa(100+i))})
+		default:
+			ws = append(ws, wr{args: []string{"SET", "ca", id, "POINT", "4", "4"}, id: "ca/" + id, needle: []byte(id)})
+		}
+	}
+	aofPath := filepath.Join(dir, "appendonly.aof")
+	for _, q := range ws {
+		v, err := w.Do(q.args...)
+		if err != nil || v.IsErr() {
+			fail("correspondence", "setup", fmt.Sprintf("%v during the rewrite: %v %v", q.args, v.String(), err), nil, nil)
+			return
+		}
+		e.acks++
+		aof, _ := os.ReadFile(aofPath)
+		if !bytes.Contains(aof, q.needle) {
+			fail("oracle", "ack-before-flush", fmt.Sprintf("%v was acknowledged (%s) while an AOFSHRINK is parked at its %q gate, but appendonly.aof (%d bytes) does not contain the command", q.args[:3], v.String(), sc.Gate, len(aof)), v.String(), nil)
+		}
+	}
+	final := map[string]bool{} // id -> must exist
+	for _, q := range ws {
+		final[q.id] = !q.gone
+	}
+	if sc.Kill {
+		e.kills++
+		s.Kill()
+	} else {
+		// park nowhere any more but keep the `done` event (it is only reported while armed)
+		ctl.ask("arm none")
+		ctl.ask("go")
+		done := false
+		for i := 0; i < 400 && !done; i++ {
+			ev := ctl.ask("wait 100")
+			done = strings.HasPrefix(ev, "done")
+		}
+		if !done {
+			fail("correspondence", "control-socket", "the rewrite did not finish after the gates were disarmed", nil, nil)
+			return
+		}
+		// one more acknowledged write after the swap, then kill
+		id := fmt.Sprintf("%sz%d", e.nonce, e.nsrv)
+		if v, err := w.Do("SET", "ca", id, "POINT", "5", "5"); err == nil && !v.IsErr() {
+			final["ca/"+id] = true
+			aof, _ := os.ReadFile(aofPath)
+			if !bytes.Contains(aof, []byte(id)) {
+				fail("oracle", "ack-before-flush", fmt.Sprintf("SET ca %s was acknowledged right after the rewrite finished, but appendonly.aof does not contain it", id), nil, nil)
+			}
+		}
+		e.kills++
+		s.Kill()
+	}
+	s = nil
+	ps, err := srv.Start(dir)
+	if err != nil {
+		fail("oracle", "restart-failed", "server does not restart after kill -9: "+err.Error(), nil, nil)
+		return
+	}
+	defer ps.Kill()
+	pc := ps.MustDial()
+	defer pc.Close()
+	for id, must := range final {
+		kv := strings.SplitN(id, "/", 2)
+		v, err := pc.Do("GET", kv[0], kv[1], "POINT")
+		for k := 0; k < 2000 && err == nil && v.IsErr() && strings.HasPrefix(v.Str, "LOADING"); k++ {
+			time.Sleep(5 * time.Millisecond)
+			v, err = pc.Do("GET", kv[0], kv[1], "POINT")
+		}
+		if must && (err != nil || v.Kind != '*') {
+			fail("oracle", "acked-write-lost-after-kill9", fmt.Sprintf("a write of %s %s was acknowledged while an AOFSHRINK was in progress (gate %q, rewrite %s), the server was killed with SIGKILL, and after the restart GET answers %s", kv[0], kv[1], sc.Gate, map[bool]string{true: "not finished", false: "finished"}[sc.Kill], v.String()), v.String(), nil)
+		}
+		if !must && (err != nil || v.Kind != 'n') {
+			fail("oracle", "acked-write-lost-after-kill9", fmt.Sprintf("DEL %s %s was acknowledged while an AOFSHRINK was in progress (gate %q), the server was killed with SIGKILL, and after the restart the object is back: %s", kv[0], kv[1], sc.Gate, v.String()), v.String(), nil)
+		}
+	}
+	r.Count(fmt.Sprintf("shrink|%s|%v|%d", sc.Gate, sc.Kill, sc.Seed), true)
+	r.Dist("scenario:shrink-window")
+	r.Sample(8, sc)
+}
+
+// ---------------------------------------------------------------------------------------------
 
 func runC08(r *hx.Result, cfg hx.Config) {
 	r.Rule = "one case = one schedule (programs of 1-3 connections [+ the background flusher], a list of thread ids) replayed step by step on the verif-tagged server and on the extracted model; non-trivial = distinct schedule in which steps of different threads alternate and at least one write command is acknowledged"
@@ -1299,10 +1543,10 @@ func runC08(r *hx.Result, cfg hx.Config) {
 	if len(so.Problems) > 0 {
 		r.Fail(hx.Failure{Kind: "correspondence", Signature: "source-order-shape", What: "netServe/writeAOF/flushAOF no longer have the statement shape the model Model/Prewrite.v transcribes: " + strings.Join(so.Problems, "; "), Case: so})
 	}
-	if !so.StoreLocked || !so.DetachPrewrite || so.FlusherSwap || !so.FlagInWriteAOF {
+	if !so.StoreLocked || !so.DetachPrewrite || so.FlusherSwap || !so.FlagInWriteAOF || !so.DetachStoreLocked {
 		r.Fail(hx.Failure{Kind: "correspondence", Signature: "source-order-variant",
-			What: fmt.Sprintf("the source has statement order store_locked=%v detach_prewrite=%v flusher_swap=%v flag_in_writeaof=%v (reply block: %s; goingLive block: %s); theorem c08_acked_flushed is about store_locked=true detach_prewrite=true flusher_swap=false flag_in_writeaof=true, and c08_refuted / c08_detach_refuted / c08_flusher_swap_refuted / c08_flag_in_dispatcher_refuted give violating schedules for the other orders",
-				so.StoreLocked, so.DetachPrewrite, so.FlusherSwap, so.FlagInWriteAOF, so.Main, so.Detach), Case: so})
+			What: fmt.Sprintf("the source has statement order store_locked=%v detach_prewrite=%v flusher_swap=%v flag_in_writeaof=%v golive_store_locked=%v (reply block: %s; goingLive block: %s); theorem c08_acked_flushed is about store_locked=true detach_prewrite=true flusher_swap=false flag_in_writeaof=true golive_store_locked=true, and the c08_*_refuted theorems give violating schedules for the other orders",
+				so.StoreLocked, so.DetachPrewrite, so.FlusherSwap, so.FlagInWriteAOF, so.DetachStoreLocked, so.Main, so.Detach), Case: so})
 	}
 	rng := rand.New(rand.NewSource(cfg.Seed))
 	drv, err := model.Start("prewrite")
@@ -1310,7 +1554,7 @@ func runC08(r *hx.Result, cfg hx.Config) {
 		panic(err)
 	}
 	defer drv.Close()
-	e := &env{r: r, cfg: cfg, drv: drv, v: variant{so.StoreLocked, so.DetachPrewrite, so.FlusherSwap, so.FlagInWriteAOF}, nonce: fmt.Sprintf("s%d", cfg.Seed%100000)}
+	e := &env{r: r, cfg: cfg, drv: drv, v: variant{so.StoreLocked, so.DetachPrewrite, so.FlusherSwap, so.FlagInWriteAOF, so.DetachStoreLocked}, nonce: fmt.Sprintf("s%d", cfg.Seed%100000)}
 	defer e.stopServer()
 
 	run := func(sc scenario) {
@@ -1334,7 +1578,11 @@ func runC08(r *hx.Result, cfg hx.Config) {
 	}
 	within := func() bool { return time.Since(t0) < budget && e.nfail < 12 }
 	for i := 0; i < nWindow && within(); i++ {
-		run(windowScenario(rng))
+		if i%3 == 2 {
+			run(liveWindowScenario(rng))
+		} else {
+			run(windowScenario(rng))
+		}
 	}
 	for i := 0; i < nRandom && within(); i++ {
 		run(randomScenario(rng, false, 3))
@@ -1342,7 +1590,9 @@ func runC08(r *hx.Result, cfg hx.Config) {
 	// schedules cut at a random acknowledgement by SIGKILL + restart
 	for i := 0; i < nKill && within(); i++ {
 		var sc scenario
-		if i%2 == 0 {
+		if i%4 == 2 {
+			sc = liveWindowScenario(rng)
+		} else if i%2 == 0 {
 			sc = windowScenario(rng)
 		} else {
 			sc = randomScenario(rng, false, 3)
@@ -1351,6 +1601,16 @@ func runC08(r *hx.Result, cfg hx.Config) {
 		sc.KillAtAck = 1 + rng.Intn(2)
 		run(sc)
 	}
+	// writes acknowledged during an AOFSHRINK
+	gates := []string{"final", "start", "ids", "keys", "hooknames"}
+	nShrink := 6
+	if cfg.Tier == "thorough" || cfg.Search {
+		nShrink = 60
+	}
+	for i := 0; i < nShrink && within(); i++ {
+		e.shrinkWindow(shrinkCase{Name: "writes during AOFSHRINK", Gate: gates[i%len(gates)], Kill: i%2 == 0, Seed: rng.Int63()})
+	}
+	e.stopServer()
 	for i := 0; i < nFlusher && within(); i++ {
 		round := 3
 		if e.v.flusherSwap {
@@ -1396,5 +1656,5 @@ func runC08(r *hx.Result, cfg hx.Config) {
 	r.Extra["acknowledgements_observed"] = e.acks
 	r.Extra["kill9_restarts"] = e.kills
 	r.Extra["servers_started"] = e.nsrv
-	r.Extra["model_variant"] = fmt.Sprintf("store_locked=%v detach_prewrite=%v flusher_swap=%v flag_in_writeaof=%v", e.v.storeLocked, e.v.detachPrewrite, e.v.flusherSwap, e.v.flagInWriteAOF)
+	r.Extra["model_variant"] = fmt.Sprintf("store_locked=%v detach_prewrite=%v flusher_swap=%v flag_in_writeaof=%v golive_store_locked=%v", e.v.storeLocked, e.v.detachPrewrite, e.v.flusherSwap, e.v.flagInWriteAOF, e.v.detachStoreLocked)
 }
